@@ -90,29 +90,32 @@ fn fill(t: &str, child: &str, child_is_atom: bool) -> String {
     t.replace('□', child).replace('■', &par)
 }
 
-#[derive(Clone, Copy)]
-struct Plan {
-    /// positions used for depth <= 1
-    d1_positions: usize,
-    /// positions used for depth 2
-    d2_positions: usize,
-    /// number of atoms used below depth-2 expressions
-    d2_atoms: usize,
-}
-
-fn plan(cfg: &Cfg) -> Plan {
+/// Number of atoms used below a depth-2 expression, per position
+fn d2_atoms(cfg: &Cfg, pos: usize) -> usize {
     match cfg.tier {
         // quick: depth <= 1 everywhere with every atom; depth 2 with the reduced
-        // atom set in statement position of a function
-        Tier::Quick => Plan { d1_positions: POSITIONS.len(), d2_positions: 1, d2_atoms: ATOMS_REDUCED },
-        Tier::Thorough => Plan { d1_positions: POSITIONS.len(), d2_positions: POSITIONS.len(), d2_atoms: ATOMS.len() },
+        // atom set in statement position of a function only
+        Tier::Quick => {
+            if pos == 0 {
+                ATOMS_REDUCED
+            } else {
+                0
+            }
+        }
+        // thorough: every atom in function-statement, function-tail and filtermap
+        // position, the reduced atom set in let / test / const position
+        Tier::Thorough => match POSITIONS[pos].0 {
+            "fn-stmt" | "fn-tail-i32" | "filtermap-tail" => ATOMS.len(),
+            _ => ATOMS_REDUCED,
+        },
     }
 }
 
 pub fn bounds(cfg: &Cfg) -> Value {
-    let p = plan(cfg);
     json!({"atoms": ATOMS.len(), "templates": TEMPLATES.len(), "positions": POSITIONS.len(),
-           "depth1_positions": p.d1_positions, "depth2_positions": p.d2_positions, "depth2_atoms": p.d2_atoms,
+           "depth0_and_1": "every atom, every template x every atom, in every position",
+           "depth2_atoms_per_position": POSITIONS.iter().enumerate()
+               .map(|(i, p)| json!({"position": p.0, "atoms": d2_atoms(cfg, i)})).collect::<Vec<_>>(),
            "type_decl_cases": count_t(cfg)})
 }
 
@@ -122,13 +125,12 @@ fn n_d0() -> u64 {
 fn n_d1() -> u64 {
     (TEMPLATES.len() * ATOMS.len()) as u64
 }
-fn n_d2(p: &Plan) -> u64 {
-    (TEMPLATES.len() * TEMPLATES.len() * p.d2_atoms) as u64
+fn n_d2(cfg: &Cfg, pos: usize) -> u64 {
+    (TEMPLATES.len() * TEMPLATES.len() * d2_atoms(cfg, pos)) as u64
 }
 
 pub fn count(cfg: &Cfg) -> u64 {
-    let p = plan(cfg);
-    (n_d0() + n_d1()) * p.d1_positions as u64 + n_d2(&p) * p.d2_positions as u64
+    (n_d0() + n_d1()) * POSITIONS.len() as u64 + (0..POSITIONS.len()).map(|p| n_d2(cfg, p)).sum::<u64>()
 }
 
 fn wrap(pos: usize, expr: &str) -> String {
@@ -137,11 +139,10 @@ fn wrap(pos: usize, expr: &str) -> String {
     format!("{PRELUDE}{pre}{expr}{post}\n")
 }
 
-/// order: depth 0, depth 1, depth 2; inside a depth the position varies fastest
+/// order: depth 0, depth 1 (position varies fastest), then depth 2 position by position
 pub fn case(cfg: &Cfg, mut idx: u64) -> (Input, Value) {
-    let p = plan(cfg);
     let (a, t) = (ATOMS.len() as u64, TEMPLATES.len() as u64);
-    let d1p = p.d1_positions as u64;
+    let d1p = POSITIONS.len() as u64;
     if idx < n_d0() * d1p {
         let (ai, pos) = (idx / d1p, (idx % d1p) as usize);
         let e = ATOMS[ai as usize];
@@ -158,17 +159,21 @@ pub fn case(cfg: &Cfg, mut idx: u64) -> (Input, Value) {
         );
     }
     idx -= n_d1() * d1p;
-    let d2p = p.d2_positions as u64;
-    assert!(idx < n_d2(&p) * d2p, "L2 index out of range");
-    let pos = (idx % d2p) as usize;
-    let d = vcore::util::decode(idx / d2p, &[t, t, p.d2_atoms as u64]);
-    let inner = fill(TEMPLATES[d[1] as usize], ATOMS[d[2] as usize], true);
-    let e = fill(TEMPLATES[d[0] as usize], &inner, false);
-    (
-        Input::Single(wrap(pos, &e)),
-        json!({"depth": 2, "expr": e, "template": TEMPLATES[d[0] as usize], "inner_template": TEMPLATES[d[1] as usize],
-               "position": POSITIONS[pos].0}),
-    )
+    for pos in 0..POSITIONS.len() {
+        let n = n_d2(cfg, pos);
+        if idx < n {
+            let d = vcore::util::decode(idx, &[t, t, d2_atoms(cfg, pos) as u64]);
+            let inner = fill(TEMPLATES[d[1] as usize], ATOMS[d[2] as usize], true);
+            let e = fill(TEMPLATES[d[0] as usize], &inner, false);
+            return (
+                Input::Single(wrap(pos, &e)),
+                json!({"depth": 2, "expr": e, "template": TEMPLATES[d[0] as usize],
+                       "inner_template": TEMPLATES[d[1] as usize], "position": POSITIONS[pos].0}),
+            );
+        }
+        idx -= n;
+    }
+    unreachable!("L2 index out of range")
 }
 
 // ------------------------------------------------------------------ L2t
